@@ -31,6 +31,7 @@ def check(A):
         C.read_loop_rules(A, cf, 'C10', timeout_rule='C10')
         C.receive_packet_table(A, cf, 'C10')
         C.disconnect_rules(A, cf, 'C10')
+        C.trigger_rules(A, cf, 'C10')
     for fl in S.FLAVOURS:
         S.upgrade_handshake(A, fl, 'C10')
         R.handle_connect_rules(A, fl, 'C10')
@@ -40,6 +41,8 @@ def check(A):
         S.ping_task_rules(A, fl, 'C10')
         S.ping_timeout_rules(A, fl, 'C10')
     R.jsonp_rule(A, 'C10')
+    R.asgi_body_rule(A, 'C10')
+    R.driver_send_rule(A, 'C10')
     R.driver_fifo_rule(A, 'C10')
     for cf in C.CFLAVOURS:
         C.connect_polling_rules(A, cf, 'C10')
